@@ -58,6 +58,7 @@ DEFAULT_PROFILE = {
     "flat": False,                 # C18: only int/bits/data, no modifiers
     "p_backward_at": 0.25,
     "p_describe": 0.0,             # length = Int(n).describe(AutoLength(next)); next = Data(length)
+    "p_implicit_ref": 0.25,        # a sub-packet declared by a bare packet class / instance in the class body
     "p_share_table": 0.3,          # a second selector of a declaration re-uses the options table object of an earlier one
     "p_proto_kept": 0.3,           # the prototype instance of a Ref is kept in a variable and modified after the class statement
     "p_move_first": 0.0,           # a position written BEFORE .when()/.repeated() (C14 only; see render.field_src)
@@ -508,6 +509,11 @@ class Gen:
                 pos_lb += f["n"]
             elif f["t"] == "data" and plain(f) and f["mode"] == "const":
                 pos_lb += f["size"]
+        for f in fields:
+            # begin = Point(x=1) / end = Point written directly in the class body (no Ref(...)): the builder wraps them
+            if f["t"] == "ref" and plain(f) and "move" not in f and "inst_mut" not in f and not decl["opts"].get("align") \
+                    and rng.random() < self.p["p_implicit_ref"]:
+                f["implicit"] = True
         self._decl_fields.pop()
         self.order.append(name)
         return decl
